@@ -135,11 +135,20 @@ impl Config {
                                     }
                                     yaml::Yaml::String(s) => {
                                         let mut it = s.split('/');
-                                        let ip =
-                                            it.next().unwrap().parse().map_err(|e| {
-                                                Error::InvalidConfig(format!("{}", e))
-                                            })?; /* TODO: remove unwrap */
-                                        let prefixlen = it.next().unwrap().parse().unwrap();
+                                        /* split() always yields at least one item */
+                                        let ip = it.next().unwrap_or("").parse().map_err(|e| {
+                                            Error::InvalidConfig(format!("{}", e))
+                                        })?;
+                                        let prefixlen = it
+                                            .next()
+                                            .ok_or_else(|| {
+                                                Error::InvalidConfig(format!(
+                                                    "Expected IPv4 prefix/len in route, but '{}'",
+                                                    s
+                                                ))
+                                            })?
+                                            .parse()
+                                            .map_err(|e| Error::InvalidConfig(format!("{}", e)))?;
                                         prefix = Some(
                                             erbium_net::Ipv4Subnet::new(ip, prefixlen).map_err(
                                                 |e| Error::InvalidConfig(format!("{}", e)),
